@@ -231,7 +231,7 @@ where
                     let node_len = bytes.get_u64() as usize;
                     let lane_len = bytes.get_u64() as usize;
 
-                    if bytes.remaining() < host_len + node_len + lane_len + ID_LEN {
+                    if bytes.remaining() < total_len(&[host_len, node_len, lane_len, ID_LEN])? {
                         *state = DecoderState::ReadingRegistration(flags);
                         break Ok(None);
                     }
@@ -284,7 +284,7 @@ where
                     let node_len = bytes.get_u64() as usize;
                     let lane_len = bytes.get_u64() as usize;
 
-                    if bytes.remaining() < host_len + node_len + lane_len {
+                    if bytes.remaining() < total_len(&[host_len, node_len, lane_len])? {
                         *state = DecoderState::ReadingAddressedHeader(flags);
                         break Ok(None);
                     }
@@ -337,6 +337,16 @@ where
             }
         }
     }
+}
+
+fn total_len(lens: &[usize]) -> Result<usize, FrameIoError> {
+    lens.iter()
+        .try_fold(0usize, |acc, len| acc.checked_add(*len))
+        .ok_or_else(|| {
+            FrameIoError::BadFrame(swimos_api::error::InvalidFrame::InvalidHeader {
+                problem: Text::new("Ad-hoc message header lengths too large."),
+            })
+        })
 }
 
 fn try_extract_utf8<S: TryFromUtf8Bytes>(
